@@ -1,19 +1,570 @@
-"""Loops (sidecar invariants) and the comprehension rule -- see DESIGN §2.8."""
+"""`for` loops with sidecar invariants, and the comprehension rule (DESIGN §2.8).
+
+Loop rule (partial correctness): with invariant Inv over the iteration count i and the loop-carried
+state,   (1) Inv(0) at entry  [inv-init];   (2) for an arbitrary 0 <= i < n and an arbitrary carried
+state satisfying Inv(i), one execution of the real body re-establishes Inv(i+1) on every normal /
+continue path [inv-step] -- `return`, `raise` and `break` paths leave with the facts of that
+iteration;   (3) after the loop only Inv(n) is known about the carried state.
+
+Comprehension rule: the element expression is executed once for a symbolic index j; every fresh
+symbol created during that execution is replaced by a Skolem function of j and the collected facts
+are universally closed over 0 <= j < n.
+"""
 from __future__ import annotations
-from .values import Unsupported
+
+import ast
+from typing import Any, Callable, Dict, List, Optional, Tuple
+
+import z3
+
+from . import model as M
+from .model import Obj
+from .values import (NORMAL, Brk, Builtin, CellRef, Cls, Cont, DictC, Fn, Kw, ListC, ObjC, Raised, Ret,
+                     State, T, Tup, Unsupported)
 
 
-def exec_for(ex, stmt, st):
-    raise Unsupported(f"for loop at line {stmt.lineno} (no invariant support yet)")
+# ============================================================================= iteration domains
+class Domain:
+    def __init__(self, n: Any, elem: Callable[[Any, State], Any], desc: str, concrete: Optional[List[Any]] = None):
+        self.n = n
+        self.elem = elem
+        self.desc = desc
+        self.concrete = concrete
 
 
-def eval_comprehension(ex, node, st, kind):
-    raise Unsupported(f"comprehension at line {node.lineno}")
+def domain_of(ex, v: Any, st: State) -> Domain:
+    if isinstance(v, Tup):
+        items = list(v.items)
+        return Domain(z3.IntVal(len(items)), lambda i, s: None, "tuple-literal", concrete=items)
+    if isinstance(v, Builtin) and v.name == "enumerate_view":
+        inner = domain_of(ex, v.bound, st)
+        if inner.concrete is not None:
+            return Domain(inner.n, None, "enumerate", concrete=[Tup((ex.const(k), x)) for k, x in enumerate(inner.concrete)])
+        return Domain(inner.n, lambda i, s: Tup((T(M.IntV(i), "int"), inner.elem(i, s))), "enumerate")
+    if isinstance(v, Builtin) and v.name == "dict_items_view":
+        d = ex.dict_snap(v.bound, st)
+        return Domain(M.klen(d), lambda i, s: Tup((T(M.kat(d, i)), T(M.dget(d, M.kat(d, i))))), "dict.items")
+    if isinstance(v, Builtin) and v.name == "range_view":
+        lo, hi = v.bound
+        n = z3.If(hi > lo, hi - lo, 0)
+        return Domain(n, lambda i, s: T(M.IntV(lo + i), "int"), "range")
+    h = ex.hint_of(v, st)
+    if h is None and isinstance(v, T):
+        h = ex.refine_hint(v, st, ("list", "tuple", "str", "dict", "set"))
+    if h in ("list", "tuple"):
+        z = ex.seq_snap(v, st)
+        return Domain(M.llen(z), lambda i, s: T(M.lat(z, i)), h)
+    if h == "str":
+        z = ex.term(v, st)
+        return Domain(z3.Length(M.sval(z)), lambda i, s: T(M.StrV(z3.SubString(M.sval(z), i, 1)), "str"), "str")
+    if h == "dict":
+        z = ex.dict_snap(v, st)
+        return Domain(M.klen(z), lambda i, s: T(M.kat(z, i)), "dict-keys")
+    if h in ("set", "frozenset"):
+        z = ex.term(v, st)
+        ex.used_assumptions.add("iteration order of a set is an uninterpreted permutation depending on the "
+                                "interpreter's hash seed (setord)")
+
+        def el(i, s, z=z):
+            e = M.setord(ex.hashseed, z, i)
+            s.assume(M.has(z, e))
+            return T(e)
+        return Domain(M.klen(z), el, "set")
+    if h == "PathHolder":
+        z = ex.term(v, st)
+        seq = z3.Select(st.ph, z)
+        return Domain(z3.Length(seq), lambda i, s: T(seq[i]), "PathHolder")
+    raise Unsupported(f"iteration over {v!r}")
 
 
-def str_join(ex, recv, arg, st):
-    raise Unsupported("str.join")
+def b_enumerate(ex, pos, kws, st):
+    return [(st, Builtin("enumerate_view", pos[0]))]
 
 
-def str_split(ex, recv, arg, st):
+def b_range(ex, pos, kws, st):
+    zs = [M.int_of(ex.term(p, st)) for p in pos]
+    if len(zs) == 1:
+        lo, hi = z3.IntVal(0), zs[0]
+    elif len(zs) == 2:
+        lo, hi = zs
+    else:
+        raise Unsupported("range with step")
+    return [(st, Builtin("range_view", (lo, hi)))]
+
+
+# ============================================================================= for loops
+def loop_ordinal(info, stmt: ast.For) -> int:
+    fors = [n for n in ast.walk(info.node) if isinstance(n, ast.For)]
+    fors.sort(key=lambda n: (n.lineno, n.col_offset))
+    for k, n in enumerate(fors):
+        if n.lineno == stmt.lineno and n.col_offset == stmt.col_offset:
+            return k
+    return -1
+
+
+def assigned_names(body: List[ast.stmt]) -> List[str]:
+    out: List[str] = []
+    for st in body:
+        for n in ast.walk(st):
+            if isinstance(n, ast.Name) and isinstance(n.ctx, ast.Store) and n.id not in out:
+                out.append(n.id)
+            if isinstance(n, ast.AugAssign) and isinstance(n.target, ast.Name) and n.target.id not in out:
+                out.append(n.target.id)
+    return out
+
+
+def mutated_receivers(body: List[ast.stmt]) -> List[str]:
+    """Names used as receivers of a mutating method call / subscript store in the body."""
+    from .executor import MUTATORS
+    out: List[str] = []
+    for st in body:
+        for n in ast.walk(st):
+            if isinstance(n, ast.Call) and isinstance(n.func, ast.Attribute) and n.func.attr in MUTATORS:
+                base = n.func.value
+                while isinstance(base, (ast.Attribute, ast.Subscript)):
+                    base = base.value
+                if isinstance(base, ast.Name) and base.id not in out:
+                    out.append(base.id)
+            if isinstance(n, ast.Subscript) and isinstance(n.ctx, ast.Store):
+                base = n.value
+                while isinstance(base, (ast.Attribute, ast.Subscript)):
+                    base = base.value
+                if isinstance(base, ast.Name) and base.id not in out:
+                    out.append(base.id)
+    return out
+
+
+class LoopView:
+    """What a sidecar invariant sees."""
+
+    def __init__(self, ex, st: State, entry: State, i: Any, n: Any, args: Dict[str, Any]) -> None:
+        self.ex, self.st, self.entry, self.i, self.n = ex, st, entry, i, n
+        self.args = args
+        self.ct = ex.ct
+        self.ph, self.alloc = st.ph, st.alloc
+        self.ph_entry, self.alloc_entry = entry.ph, entry.alloc
+
+    def _term(self, st: State, name: str) -> Any:
+        v = st.env[name]
+        if isinstance(v, CellRef):
+            c = st.cells[v.id]
+            if isinstance(c, (ListC, DictC)):
+                return c.snap
+            if isinstance(c, ObjC):
+                e = c.get("_errors")
+                if isinstance(e, CellRef):
+                    return st.cells[e.id].snap
+                raise Unsupported(f"invariant refers to object {name}")
+        if isinstance(v, T):
+            return v.z
+        if isinstance(v, Kw):
+            return v.z
+        raise Unsupported(f"invariant refers to {name} = {v!r}")
+
+    def v(self, name: str) -> Any:
+        return self._term(self.st, name)
+
+    def pre(self, name: str) -> Any:
+        return self._term(self.entry, name)
+
+    def has(self, name: str) -> bool:
+        return name in self.st.env
+
+    def arg(self, name: str) -> Any:
+        return self.args[name]
+
+
+def havoc_state(ex, st: State, carried: List[str], heap: bool) -> None:
+    """Replace every loop-carried variable / cell by a fresh symbol of the same shape."""
+    done: set = set()
+
+    def hv_cell(cid: int) -> None:
+        if cid in done:
+            return
+        done.add(cid)
+        c = st.cells[cid]
+        if isinstance(c, ListC):
+            z = M.fresh("Lh")
+            st.assume(M.is_Ref(z), M.rcls(z) == M.rcls(c.snap))
+            st.cells[cid] = ListC(z)
+        elif isinstance(c, DictC):
+            z = M.fresh("Dh")
+            st.assume(M.is_Ref(z), M.rcls(z) == M.rcls(c.snap))
+            st.cells[cid] = DictC(z)
+        elif isinstance(c, ObjC):
+            if c.frozen:
+                raise Unsupported("loop mutates an escaped object")
+            for k, a in c.attrs:
+                if isinstance(a, CellRef):
+                    hv_cell(a.id)
+
+    for name in carried:
+        if name not in st.env:
+            continue
+        v = st.env[name]
+        if isinstance(v, CellRef):
+            hv_cell(v.id)
+        elif isinstance(v, T):
+            st.env[name] = T(M.fresh("h_" + name), v.hint)
+        elif isinstance(v, (Tup, Cls, Fn, Builtin, Kw)):
+            if isinstance(v, Tup):
+                raise Unsupported(f"loop-carried tuple variable {name}")
+    if heap:
+        ph1 = M.fresh("phL", z3.ArraySort(Obj, M.SeqObj))
+        a1 = M.fresh("allocL", M.I)
+        p = z3.Const("p", Obj)
+        st.assume(a1 >= st.alloc,
+                  z3.ForAll([p], z3.Implies(M.rid(p) < st.alloc, z3.Select(ph1, p) == z3.Select(st.ph, p)),
+                            patterns=[z3.Select(ph1, p)]))
+        st.ph, st.alloc = ph1, a1
+
+
+def exec_for(ex, stmt: ast.For, st: State) -> List[Tuple[State, Any]]:
+    if stmt.orelse:
+        raise Unsupported("for-else")
+    info = st.env.get("__func__")
+    out: List[Tuple[State, Any]] = []
+    for s, itv in ex.ev(stmt.iter, st):
+        if isinstance(itv, Raised):
+            out.append((s, itv))
+            continue
+        dom = domain_of(ex, itv, s)
+        if dom.concrete is not None:
+            out += unroll(ex, stmt, dom.concrete, s)
+            continue
+        k = loop_ordinal(info, stmt)
+        inv = ex.contracts.lookup_invariant(info, k)
+        if inv is None:
+            raise Unsupported(f"loop #{k} of {info.qualname} (line {stmt.lineno}) has no sidecar invariant")
+        out += with_invariant(ex, stmt, dom, inv, info, k, s)
+    return out
+
+
+def unroll(ex, stmt: ast.For, items: List[Any], st: State) -> List[Tuple[State, Any]]:
+    states: List[Tuple[State, Any]] = [(st, NORMAL)]
+    for it in items:
+        nxt: List[Tuple[State, Any]] = []
+        for s, o in states:
+            if o is not NORMAL:
+                nxt.append((s, o))
+                continue
+            for s2, o2 in ex.assign(stmt.target, it, s):
+                if o2 is not NORMAL:
+                    nxt.append((s2, o2))
+                    continue
+                for s3, o3 in ex.ex_block(stmt.body, s2):
+                    if isinstance(o3, Cont):
+                        nxt.append((s3, NORMAL))
+                    else:
+                        nxt.append((s3, o3))
+        states = nxt
+    return [(s, NORMAL if isinstance(o, Brk) else o) for s, o in states]
+
+
+def with_invariant(ex, stmt: ast.For, dom: Domain, inv, info, k: int, entry: State) -> List[Tuple[State, Any]]:
+    q = info.qualname
+    carried = list(dict.fromkeys(list(inv.carried) + assigned_names(stmt.body) + mutated_receivers(stmt.body)))
+    targets = [n.id for n in ast.walk(stmt.target) if isinstance(n, ast.Name)]
+    carried = [c for c in carried if c not in targets]
+    args = getattr(ex, "contract_args", {})
+    n = dom.n
+    entry0 = entry.fork()      # immutable snapshot of the loop-entry state (for `pre`)
+    # (1) init
+    L0 = LoopView(ex, entry0, entry0, z3.IntVal(0), n, args)
+    ex.oblige(entry, f"{q}:loop#{k}:inv-init", "inv-init", inv.fn(L0),
+              getattr(ex, "current_props", ()), text=f"invariant of loop #{k} holds at entry",
+              where=f"line {stmt.lineno}")
+    out: List[Tuple[State, Any]] = []
+    # (2) arbitrary iteration
+    s_it = entry.fork()
+    havoc_state(ex, s_it, carried, heap=True)
+    i = M.fresh("it", M.I)
+    s_it.assume(0 <= i, i < n)
+    Li = LoopView(ex, s_it, entry0, i, n, args)
+    s_it.assume(inv.fn(Li))
+    saved_floor = getattr(ex, "frame_floor", None)
+    ex.frame_floor = s_it.alloc
+    try:
+        if ex.sat(s_it):
+            el = dom.elem(i, s_it)
+            for s2, o2 in ex.assign(stmt.target, el, s_it):
+                if o2 is not NORMAL:
+                    out.append((s2, o2))
+                    continue
+                for s3, o3 in ex.ex_block(stmt.body, s2):
+                    if o3 is NORMAL or isinstance(o3, Cont):
+                        L1 = LoopView(ex, s3, entry0, i + 1, n, args)
+                        ex.oblige(s3, f"{q}:loop#{k}:inv-step", "inv-step", inv.fn(L1),
+                                  getattr(ex, "current_props", ()),
+                                  text=f"invariant of loop #{k} is preserved by the body",
+                                  where=f"line {stmt.lineno}")
+                    elif isinstance(o3, Brk):
+                        out.append((s3, NORMAL))
+                    else:
+                        out.append((s3, o3))
+    finally:
+        ex.frame_floor = saved_floor
+    # (3) exit
+    s_ex = entry
+    havoc_state(ex, s_ex, carried, heap=True)
+    Ln = LoopView(ex, s_ex, entry0, n, n, args)
+    s_ex.assume(inv.fn(Ln))
+    out.append((s_ex, NORMAL))
+    return out
+
+
+# ============================================================================= comprehensions
+def _fresh_consts_since(exprs: List[Any], mark: int) -> List[Any]:
+    seen: Dict[int, Any] = {}
+    out: Dict[str, Any] = {}
+
+    def go(e: Any) -> None:
+        if e.get_id() in seen:
+            return
+        seen[e.get_id()] = e
+        if z3.is_quantifier(e):
+            go(e.body())
+            return
+        if z3.is_app(e):
+            if e.num_args() == 0 and e.decl().kind() == z3.Z3_OP_UNINTERPRETED:
+                nm = e.decl().name()
+                if "!" in nm:
+                    try:
+                        idx = int(nm.rsplit("!", 1)[1])
+                    except ValueError:
+                        idx = -1
+                    if idx > mark:
+                        out[nm] = e
+            for c in e.children():
+                go(c)
+    for e in exprs:
+        go(e)
+    return list(out.values())
+
+
+def skolemize(exprs: List[Any], mark: int, j: Any) -> Tuple[List[Any], List[Tuple[Any, Any]]]:
+    consts = _fresh_consts_since(exprs, mark)
+    subs = []
+    for c in consts:
+        f = z3.Function(f"sk_{c.decl().name()}", M.I, c.sort())
+        subs.append((c, f(j)))
+    return [z3.substitute(e, *subs) if subs else e for e in exprs], subs
+
+
+def eval_comprehension(ex, node: Any, st: State, kind: str) -> List[Tuple[State, Any]]:
+    if len(node.generators) != 1 or node.generators[0].is_async:
+        raise Unsupported("nested comprehension")
+    gen = node.generators[0]
+    out: List[Tuple[State, Any]] = []
+    for s, itv in ex.ev(gen.iter, st):
+        if isinstance(itv, Raised):
+            out.append((s, itv))
+            continue
+        dom = domain_of(ex, itv, s)
+        if dom.concrete is not None:
+            raise Unsupported("comprehension over a literal tuple")
+        out += comp_symbolic(ex, node, gen, dom, s, kind)
+    return out
+
+
+def comp_symbolic(ex, node, gen, dom: Domain, st: State, kind: str) -> List[Tuple[State, Any]]:
+    n = dom.n
+    j = M.fresh("cj", M.I)
+    mark = M._ctr[0]
+    base_len = len(st.pc)
+    s1 = st.fork()
+    s1.assume(0 <= j, j < n)
+    saved_env = dict(s1.env)
+    el = dom.elem(j, s1)
+    # element outcomes: (state, ("keep", value) | ("skip",) | Raised)
+    outs: List[Tuple[State, Any]] = []
+    for s2, o2 in ex.assign(gen.target, el, s1):
+        if o2 is not NORMAL:
+            outs.append((s2, o2))
+            continue
+        conds: List[Tuple[State, Any]] = [(s2, True)]
+        for cnd in gen.ifs:
+            nxt = []
+            for s3, ok in conds:
+                if ok is not True:
+                    nxt.append((s3, ok))
+                    continue
+                for s4, cv in ex.ev(cnd, s3):
+                    if isinstance(cv, Raised):
+                        nxt.append((s4, cv))
+                        continue
+                    for s5, b in ex.branch(s4, ex.truth(cv, s4)):
+                        nxt.append((s5, True if b else "skip"))
+            conds = nxt
+        for s3, ok in conds:
+            if isinstance(ok, Raised):
+                outs.append((s3, ok))
+            elif ok == "skip":
+                outs.append((s3, ("skip",)))
+            else:
+                if kind == "dict":
+                    for s4, kv in ex.ev_seq([node.key, node.value], s3):
+                        outs.append((s4, kv if isinstance(kv, Raised) else ("keep", kv)))
+                else:
+                    for s4, v in ex.ev(node.elt, s3):
+                        outs.append((s4, v if isinstance(v, Raised) else ("keep", v)))
+    results: List[Tuple[State, Any]] = []
+    for s, o in outs:
+        if not (s.ph is st.ph or z3.eq(s.ph, st.ph)):
+            raise Unsupported("comprehension element touches the PathHolder heap")
+    normal = [(s, o) for s, o in outs if not isinstance(o, Raised)]
+    raised = [(s, o) for s, o in outs if isinstance(o, Raised)]
+    # raise outcomes: some element raises (facts of that element kept for a witness index)
+    for s, o in raised:
+        s.env = dict(saved_env)
+        results.append((s, o))
+    if not normal:
+        # every element raises: a normal result only for the empty iterable
+        s0 = st.fork().assume(n == 0)
+        if ex.sat(s0):
+            results.append((s0, _empty_result(ex, s0, kind)))
+        return results
+    # universally closed facts of the normal outcomes
+    has_skip = any(o == ("skip",) for _, o in normal)
+    branches = []
+    for s, o in normal:
+        facts = s.pc[base_len + 2:]          # after `0 <= j`, `j < n`
+        if o == ("skip",):
+            branches.append((facts, None))
+        else:
+            v = o[1]
+            if kind == "dict":
+                zt = [ex.term(v[0], s), ex.term(v[1], s)]
+            else:
+                zt = [ex.term(v, s)]
+            facts = s.pc[base_len + 2:]
+            branches.append((facts, zt))
+    sN = st
+    R = M.fresh("comp")
+    inr = z3.And(0 <= j, j < n)
+    jj = z3.Int("cjq")
+    if not has_skip and kind in ("list", "gen"):
+        sN.assume(M.is_Ref(R), M.rcls(R) == ex.ct.id("list"), M.llen(R) == z3.If(n > 0, n, 0))
+        disj = []
+        for facts, zt in branches:
+            exprs, _ = skolemize(list(facts) + [zt[0]], mark, j)
+            disj.append(z3.And(*exprs[:-1], M.lat(R, j) == exprs[-1]))
+        body = z3.Implies(inr, z3.Or(*disj))
+        sN.assume(z3.ForAll([jj], z3.substitute(body, (j, jj)), patterns=[M.lat(R, jj)]))
+        return results + [(sN, T(R, "list"))]
+    if kind == "dict" and not has_skip:
+        ex.used_assumptions.add("dict comprehension over dict.items(): keys are the (distinct) source keys in order")
+        sN.assume(M.is_Ref(R), M.rcls(R) == ex.ct.id("dict"), M.klen(R) == z3.If(n > 0, n, 0))
+        disj = []
+        for facts, zt in branches:
+            exprs, _ = skolemize(list(facts) + zt, mark, j)
+            kz, vz = exprs[-2], exprs[-1]
+            disj.append(z3.And(*exprs[:-2], M.kat(R, j) == kz, M.has(R, kz), M.dget(R, kz) == vz))
+        body = z3.Implies(inr, z3.Or(*disj))
+        sN.assume(z3.ForAll([jj], z3.substitute(body, (j, jj)), patterns=[M.kat(R, jj)]))
+        return results + [(sN, T(R, "dict"))]
+    # filtered list / set comprehension: the trusted filter rule
+    keep_conds = []
+    elt_terms = []
+    for facts, zt in branches:
+        exprs, _ = skolemize(list(facts) + ([zt[0]] if zt else []), mark, j)
+        if zt is None:
+            continue
+        keep_conds.append(z3.And(*exprs[:-1]) if exprs[:-1] else z3.BoolVal(True))
+        elt_terms.append(exprs[-1])
+    if len(keep_conds) != 1:
+        raise Unsupported("filtered comprehension with branching element")
+    g = lambda t: z3.substitute(keep_conds[0], (j, t))
+    e = lambda t: z3.substitute(elt_terms[0], (j, t))
+    ex.used_assumptions.add("filter rule for comprehensions: the result holds exactly the kept elements in order; "
+                            "len(result) == len(source) iff every element is kept")
+    kk = z3.Int("ck")
+    if kind in ("list", "gen"):
+        fi = z3.Function(f"fi_{R}", M.I, M.I)
+        sN.assume(M.is_Ref(R), M.rcls(R) == ex.ct.id("list"), M.llen(R) <= z3.If(n > 0, n, 0),
+                  z3.ForAll([kk], z3.Implies(z3.And(0 <= kk, kk < M.llen(R)),
+                                             z3.And(0 <= fi(kk), fi(kk) < n, kk <= fi(kk), g(fi(kk)),
+                                                    M.lat(R, kk) == e(fi(kk)))),
+                            patterns=[M.lat(R, kk)]),
+                  (M.llen(R) == z3.If(n > 0, n, 0)) ==
+                  z3.ForAll([jj], z3.Implies(z3.And(0 <= jj, jj < n), g(jj))),
+                  z3.Implies(M.llen(R) == z3.If(n > 0, n, 0),
+                             z3.ForAll([kk], z3.Implies(z3.And(0 <= kk, kk < M.llen(R)), fi(kk) == kk),
+                                       patterns=[fi(kk)])))
+        return results + [(sN, T(R, "list"))]
+    if kind == "set":
+        x = z3.Const("sx", Obj)
+        wi = z3.Function(f"wi_{R}", Obj, M.I)
+        sN.assume(M.is_Ref(R), M.rcls(R) == ex.ct.id("set"),
+                  z3.ForAll([jj], z3.Implies(z3.And(0 <= jj, jj < n, g(jj)), M.has(R, e(jj)))),
+                  z3.ForAll([x], z3.Implies(M.has(R, x), z3.And(0 <= wi(x), wi(x) < n, g(wi(x)), e(wi(x)) == x)),
+                            patterns=[M.has(R, x)]),
+                  (M.klen(R) > 0) == z3.Exists([jj], z3.And(0 <= jj, jj < n, g(jj))))
+        return results + [(sN, T(R, "set"))]
+    raise Unsupported(f"comprehension kind {kind}")
+
+
+def _empty_result(ex, st: State, kind: str) -> Any:
+    if kind in ("list", "gen"):
+        return ex.new_list(st)
+    if kind == "dict":
+        return ex.new_dict(st)
+    return T(ex.empty_dict_term(st, "S"), "set")
+
+
+# ============================================================================= str.join / split / all / any
+joined = z3.Function("joined", M.S, Obj, M.S)      # sep.join(list)
+
+
+def str_join(ex, recv: Any, arg: Any, st: State) -> List[Tuple[State, Any]]:
+    sep = M.sval(ex.term(recv, st))
+    lst = ex.seq_snap(arg, st)
+    r = joined(sep, lst)
+    n = M.llen(lst)
+    j = z3.Int("jj")
+    ex.used_assumptions.add("str.join: '' for an empty list; the single element for a one-element list; with an "
+                            "empty separator and one-character elements the result has those characters in order")
+    st.assume(z3.Implies(n == 0, r == z3.StringVal("")),
+              z3.Implies(n == 1, r == M.sval(M.lat(lst, 0))),
+              z3.Implies(z3.And(z3.Length(sep) == 0,
+                                z3.ForAll([j], z3.Implies(z3.And(0 <= j, j < n),
+                                                          z3.And(M.is_StrV(M.lat(lst, j)),
+                                                                 z3.Length(M.sval(M.lat(lst, j))) == 1)),
+                                          patterns=[M.lat(lst, j)])),
+                         z3.And(z3.Length(r) == n,
+                                z3.ForAll([j], z3.Implies(z3.And(0 <= j, j < n),
+                                                          z3.SubString(r, j, 1) == M.sval(M.lat(lst, j))),
+                                          patterns=[z3.SubString(r, j, 1)]))))
+    # TypeError when an element is not a str
+    bad = z3.Exists([j], z3.And(0 <= j, j < n, z3.Not(M.is_StrV(M.lat(lst, j)))))
+    out = []
+    for s, b in ex.branch(st, bad):
+        if b:
+            out.append((s, Raised("TypeError", None, "join of non-str element")))
+        else:
+            out.append((s, T(M.StrV(r), "str")))
+    return out
+
+
+def str_split(ex, recv: Any, arg: Any, st: State) -> List[Tuple[State, Any]]:
     raise Unsupported("str.split")
+
+
+def b_all(ex, pos, kws, st):
+    return _allany(ex, pos, st, True)
+
+
+def b_any(ex, pos, kws, st):
+    return _allany(ex, pos, st, False)
+
+
+def _allany(ex, pos, st, is_all: bool):
+    (v,) = pos
+    z = ex.seq_snap(v, st)
+    j = z3.Int("aj")
+    tr = lambda t: ex.truth(T(t), st)
+    if is_all:
+        f = z3.ForAll([j], z3.Implies(z3.And(0 <= j, j < M.llen(z)), tr(M.lat(z, j))), patterns=[M.lat(z, j)])
+    else:
+        f = z3.Exists([j], z3.And(0 <= j, j < M.llen(z), tr(M.lat(z, j))))
+    return [(st, T(M.BoolV(f), "bool"))]
